@@ -3,7 +3,7 @@ import json
 import os
 
 from harness import interp_common as ic
-from harness.interp_gen import Gen
+from harness.interp_gen import Gen, gate_inspect
 from harness.props import c03 as _c03
 
 PROP = 'C08'
@@ -17,13 +17,20 @@ RULE = ('spec trees of depth <= 3 (quick) / 4 (thorough) built from nestings of 
         'something different in every mode), T, instrumented callables; plus lazy streams (Iter(sub) / Iter().map(sub) with such '
         'leaves or a random sub-spec) built under a wrapper that is a non-final link of a tuple / Pipe -- bare, inside a dict / list '
         'built under the wrapper, with the chain itself under a second wrapper -- and consumed by a later link (list / tuple), with '
-        'controls (consumed inside the wrapper; wrapper last); plus Fill over random literal container shapes '
+        'controls (consumed inside the wrapper; wrapper last); 12% of the cases are a Pipe that stands inside a Fill / Match / Auto '
+        'wrapper -- directly or through 0-2 constructs that leave the mode alone (Spec, Coalesce branch, Switch case, And / Or child, '
+        'Pipe step, dict value / list item of a Fill shape) -- whose steps include plain mode-sensitive objects at the first, a middle '
+        'and the last position: a tuple (Fill: constructor; Match: tuple pattern; Auto: chain), a list, a dict, a str, nested tuples, '
+        'with T / access / probe / literal / Auto(..) leaves, type-directed patterns for Match on tuple / list / dict values (8% '
+        'deliberately non-matching), optionally followed by a probe after the wrapper -- and an enumerated stream (936 cases) with a '
+        'plain tuple / list / dict / str step as the only, first, middle and last step of a Pipe below Fill / Match / Auto, directly '
+        'and through each of Spec, Coalesce, Switch, And, Or, Pipe-in-Pipe, Inspect, alone and followed by a probe; plus Fill over random literal container shapes '
         '(dict/list/tuple/set/frozenset nested to depth 3) with T / Spec / Val / callable leaves; plus containers with T leaves '
         'in argument position (Coalesce default, Call args/kwargs, S(k=..) value, Fill) evaluated once per record of a '
         'list of distinct records after an access step of the same chain (empty containers included, also nested, and '
         'the defaults of Match / Switch / And / Or); 6% of the cases are self-referential container graphs (1-4 list / dict / '
         'tuple nodes on a cycle through node 0, extra back / cross / shared references, T / Spec / literal / callable '
-        'leaves, 6% failing leaves) in an argument position (Coalesce / Match / Switch / Or default, S(x=..) + S.x, '
+        'leaves, 6% failing leaves; a tuple may contain tuples with a larger index) in an argument position (Coalesce / Match / Switch / Or default, S(x=..) + S.x, '
         'Call args, T.get(k, arg)), optionally under Fill / Auto, evaluated with one spec object for 2-3 targets; '
         'the result graph is compared in canonical form (list / dict nodes numbered in first-visit order). Every '
         'case is evaluated twice on the same spec object with every container glom created for the first result '
@@ -34,9 +41,12 @@ RULE = ('spec trees of depth <= 3 (quick) / 4 (thorough) built from nestings of 
 TRUSTED = ['Python primitives are parameters of the theorems (`Prims`); their executable instantiation is validated by '
            'the correspondence only',
            'the accumulating dict/list specs of Group mode are C16 (here Group wraps probes, T, callables, nested wrappers)']
-ASSUMPTIONS = ['self-referential containers in argument position (the id()-memo of _ArgValuator) are outside the proved Spec type '
-               '(tree-shaped): their rebuilt graph is compared, in canonical first-visit numbering, with the Lean reference '
-               '`rebuild` (Glom/Spec/C08.lean) whose leaves are evaluated by the interpreter model -- exercised on every run, not proved',
+ASSUMPTIONS = ['self-referential containers in argument position (the id()-memo of _ArgValuator) are outside the tree-shaped Spec type: '
+               'they are a heap of list / dict / tuple nodes (Glom/Spec/C08.lean); the Lean reference `rebuild` is PROVED to terminate '
+               'on every heap whose tuple-only reference paths are acyclic (c08_rebuild_terminates; the generated heaps satisfy the '
+               'decidable sufficient condition tuplesForward, checked by the driver) and to yield a graph isomorphic to the reachable '
+               'heap (c08_rebuild_iso); that glom\'s _ArgValuator computes this `rebuild` (with leaves evaluated by the interpreter '
+               'model) is validated by the correspondence on every run, in canonical first-visit numbering',
                'identity / freshness of rebuilt containers (no object of the spec in a result or a call argument, evaluations share '
                'no mutable state) is observed by the harness on the implementation: the model\'s values are immutable trees',
                'a lazily evaluated stream (Iter(sub) / Iter().map(sub)) is modelled -- and covered by c08_mode_lexical -- by evaluating '
@@ -52,12 +62,20 @@ MANIFEST = dict(
           "proved for the ChainMap-of-frames representation; Fill/argument mode shape and literal laws; a proved "
           "counter-example shows the pre-repair chain_child (defect F4) violates it; lazily evaluated streams (Iter) are a construct "
           "of the induction (their probes carry the mode of the place where the stream is written, whichever later step consumes "
-          "it). The interpreter model is tied to "
+          "it). A plain object -- at any position of a tuple / Pipe, however deep below the wrapper -- is interpreted by the mode "
+          "function of the mode in force around it (c08_plain_dispatch, c08_chain_steps_owner_mode, c08_plain_step_of_chain; "
+          "c08_pipe_splice_counterexample: splicing a tuple step into the Pipe is not equivalent under Fill / Match). For "
+          "self-referential containers in argument position the reference `rebuild` (id()-memo for lists and dicts, tuples "
+          "structurally) is proved total on every constructible heap (c08_rebuild_terminates: recursion depth fuelBound suffices, "
+          "the result is fuel-independent) and shape-preserving (c08_rebuild_iso: the memo is a bijection between the reachable "
+          "lists / dicts and the first-visit numbers, every rebuilt node has the kind and item-by-item the items of its spec node, "
+          "shared nodes stay shared, cycles stay cycles), with the forced hypothesis shown by c08_rebuild_tuple_cycle_counterexample. "
+          "The interpreter model is tied to "
           "/repo by differential execution (result + call log + probe-mode log) through the compiled Lean driver, which "
           "evaluates the same checkModes predicate on the modes the real glom recorded."),
     note=("trusted: Lean kernel + {propext, Classical.choice, Quot.sound}; harness/driver; Python primitives as Prims "
           "parameters; hand-written interpreter model (validated on every run by the correspondence, not regenerated). "
-          "Not covered by a theorem: cyclic containers in argument position (checked against the Lean reference `rebuild` on every run); "
+          "Not covered by a theorem: that _ArgValuator computes `rebuild` (checked against it on every run); "
           "identity/freshness of rebuilt containers (observed on the implementation); Group's accumulating dict/list specs (C16)."),
     technique='Lean 4 invariant proof by induction on fuel over a monadic interpreter model (Hoare-style rules) + differential correspondence',
     ref='DESIGN.md §3 C08')
@@ -93,16 +111,16 @@ def gen_cyclic(rng):
 
     def item(i):
         if rng.random() < 0.45:
-            # tuples may only point at list / dict nodes (a cycle always passes through a mutable node)
-            return {'ref': rng.choice(mut if kinds[i] == 'tuple' else list(range(n)))}
+            # a tuple may point at list / dict nodes and at tuples with a larger index (the order in which the
+            # tuples can be constructed): every cycle passes through a mutable node
+            return {'ref': rng.choice(mut + [j for j in range(i + 1, n) if kinds[j] == 'tuple']
+                                      if kinds[i] == 'tuple' else list(range(n)))}
         return leaf()
     nodes = []
     for i, k in enumerate(kinds):
         items = [item(i) for _ in range(rng.randint(0, 3))]
         # a chain through all nodes back to node 0: every node is reachable and lies on a cycle
         nxt = (i + 1) % n
-        if kinds[i] == 'tuple' and kinds[nxt] == 'tuple':
-            nxt = 0
         items.insert(rng.randint(0, len(items)), {'ref': nxt})
         if k == 'dict':
             nodes.append({'t': 'dict', 'es': [[{'leaf': {'k': 'str', 's': 'k%d' % m}}, it] for m, it in enumerate(items)]})
@@ -239,13 +257,48 @@ def run_cyclic(case):
     return out
 
 
+def modechain_shapes():
+    """enumerated: a Pipe below a Fill / Match / Auto wrapper -- directly and through each construct that leaves the
+    mode alone -- with a plain tuple / list / dict / str step as its only, first, middle and last step.  Pipe is
+    not a mode wrapper: the step is read in the mode around the Pipe (Fill: constructor, Match: pattern, Auto:
+    chain / list spec / dict spec / path)."""
+    T0 = {'k': 't', 'steps': []}
+    X = {'k': 't', 'steps': [['[', {'s': 'x'}]]}
+    C = lambda x: {'k': 'coalesce', 'subs': [x], 'dflt': None, 'dflt_factory': None, 'skip': None, 'skip_exc': ['GlomError']}
+    through = [lambda b: b, lambda b: {'k': 'specW', 's': b, 'scope': []}, C,
+               lambda b: {'k': 'switch', 'cases': [[T0, b]], 'dflt': None},
+               lambda b: {'k': 'and', 'cs': [b], 'dflt': None}, lambda b: {'k': 'or', 'cs': [b], 'dflt': None},
+               lambda b: {'k': 'pipe', 'xs': [T0, b]}, lambda b: {'k': 'pipe', 'xs': [b]},
+               lambda b: {'k': 'inspect', 's': b, 'bp': None, 'pm': None, 'echo': False, 'recursive': False}]
+    fill_objs = [{'k': 'tuple', 'xs': [X, {'k': 'str', 's': 'lit'}]}, {'k': 'tuple', 'xs': [T0]},
+                 {'k': 'tuple', 'xs': [{'k': 'tuple', 'xs': [X]}, {'k': 'list', 'xs': [T0]}]},
+                 {'k': 'list', 'xs': [X, T0]}, {'k': 'dict', 'es': [[{'k': 'str', 's': 'k'}, X]]}, {'k': 'str', 's': 'x'}]
+    ftarget = {'x': 1, 'y': {'x': 2}}
+    INT, STR = {'k': 'ty', 'name': 'int'}, {'k': 'ty', 'name': 'str'}
+    match_objs = [{'k': 'tuple', 'xs': [INT, STR]}, {'k': 'tuple', 'xs': [INT, {'k': 'str', 's': 's'}]},
+                  {'k': 'tuple', 'xs': [INT]}, {'k': 'ty', 'name': 'tuple'}]
+    mtarget = (1, 's')
+    auto_objs = [{'k': 'tuple', 'xs': [{'k': 'str', 's': 'y'}, {'k': 'str', 's': 'x'}]}, {'k': 'str', 's': 'y.x'},
+                 {'k': 'dict', 'es': [[{'k': 'str', 's': 'k'}, {'k': 'str', 's': 'x'}]]}]
+    for w, objs, target in (('fill', fill_objs, ftarget), ('match', match_objs, mtarget), ('auto', auto_objs, ftarget)):
+        for obj in objs:
+            for steps in ([obj], [obj, T0], [T0, obj, T0], [T0, obj]):
+                for th in through:
+                    body = th({'k': 'pipe', 'xs': steps})
+                    spec = {'k': 'match', 's': body, 'dflt': None} if w == 'match' else {'k': w, 's': body}
+                    yield {'spec': spec, 'target': ic.enc(target), 'scope': []}
+                    yield {'spec': {'k': 'tuple', 'xs': [spec, {'k': 'probe', 'id': 9}]}, 'target': ic.enc(target), 'scope': []}
+
+
 def generate(rng, tier, scale, **focus):
+    if not focus:
+        yield from modechain_shapes()
     n = (1500 if tier == 'quick' else 30000) * scale
     for i in range(n):
         if rng.random() < 0.06:
             yield gen_cyclic(rng)
             continue
-        g = Gen(rng, {'extra': ['wrap', 'wrap', 'wrap', 'probe', 'probe', 'modeprobe', 'fillshape', 'switch', 'and', 'lazy'],
+        g = Gen(rng, {'extra': ['wrap', 'wrap', 'wrap', 'probe', 'probe', 'modeprobe', 'fillshape', 'switch', 'and', 'lazy', 'modechain', 'inspect'],
                       'scope': False})
         t = g.target()
         depth = rng.choice([1, 2, 2, 3]) if tier == 'quick' else rng.choice([2, 3, 3, 4])
@@ -270,9 +323,13 @@ def generate(rng, tier, scale, **focus):
                 else:
                     steps.append(g.probe())
             spec = {'k': rng.choice(['tuple', 'pipe']), 'xs': steps}
+        elif p < 0.62:
+            # a Pipe inside a Fill / Match / Auto wrapper (directly or through mode-neutral constructs) with
+            # plain mode-sensitive steps (tuple / list / dict / str) at the first, a middle and the last position
+            spec = g.s_modechain(t, depth)
         else:
             spec = g.spec(t, depth)
-        yield {'spec': spec, 'target': ic.enc(t), 'scope': []}
+        yield {'spec': gate_inspect(spec), 'target': ic.enc(t), 'scope': []}
 
 
 def corpus():
@@ -297,8 +354,11 @@ def run_impl(case):
     if base['spec']['k'] == 'fill' and not base.get('scope'):
         # Fill(spec).fill(target) is glom(target, Fill(spec))
         fns = {}
+        import contextlib
+        import io
         try:
-            res = ic.build(base['spec'], fns).fill(ic.dec(base['target'], fns))
+            with contextlib.redirect_stdout(io.StringIO()):
+                res = ic.build(base['spec'], fns).fill(ic.dec(base['target'], fns))
         except Exception as e:
             r = {'err': ic.exc_name(e)}
         else:
